@@ -18,6 +18,7 @@ def run(tier, seed, replay=None):
     bounds_common.dir_bounds(ck, symmod, 3)
     ck.replayers["bounds."] = replay_sessions
     ck.replayers["session."] = replay_sessions
+    ck.replayers["fs."] = replay_sessions
     ck.discharge()
     n = 600 if tier == "thorough" else 60
     r = replay_py.run_driver("session_history.py", {"seed": seed, "cases": n, "max_failures": 3}, timeout=3000)
